@@ -41,16 +41,24 @@ def arrD (j : Json) (k : String) : List Json :=
 def strsD (j : Json) (k : String) : List String :=
   (arrD j k).map fun v => match v with | .str s => s | _ => ""
 
+def statusOf (s : String) : Status :=
+  match s with
+  | "Active" => .active
+  | "Expired" => .expired
+  | "Frozen" => .frozen
+  | "Unauthorized" => .unauthorized
+  | _ => .unknown
+
 def heightOf (j : Json) : Except String Height := do
   let r ← nat j "r"; let h ← nat j "h"
   pure ⟨UInt64.ofNat r, UInt64.ofNat h⟩
 
 def lcOf (op : Json) : Except String LcEnv := do
   match obj? op "lc" with
-  | none => pure ⟨"Active", [], ⟨1, 10⟩, [], none, false, false, true, true, true⟩
+  | none => pure ⟨.active, [], ⟨1, 10⟩, [], none, false, false, true, true, true⟩
   | some lc =>
-    let stOf : List (Id × String) := match obj? lc "stOf" with
-      | some (.obj kvs) => kvs.toList.map fun (k, v) => (k, match v with | .str s => s | _ => "")
+    let stOf : List (Id × Status) := match obj? lc "stOf" with
+      | some (.obj kvs) => kvs.toList.map fun (k, v) => (k, match v with | .str s => statusOf s | _ => .unknown)
       | _ => []
     let lh ← match obj? lc "lh" with
       | some h => heightOf h
@@ -61,7 +69,7 @@ def lcOf (op : Json) : Except String LcEnv := do
     let ts : Option Nat := match nat lc "ts" with
       | .ok n => some n
       | .error _ => none
-    pure ⟨strD lc "st" "Active", stOf, lh, lhOf, ts, boolD lc "v1" false, boolD lc "v2" false,
+    pure ⟨statusOf (strD lc "st" "Active"), stOf, lh, lhOf, ts, boolD lc "v1" false, boolD lc "v2" false,
       boolD lc "msgOK" true, boolD lc "initOK" true, boolD lc "recovOK" true⟩
 
 def envOf (op : Json) : Except String Env := do
